@@ -65,8 +65,11 @@ CHECKS = {
     'C08': dict(
         text='Congruence theorems: every product-type operator (any sign function, filter, key-out), add, sub, neg, the involutions '
              'and the Hodge duals respect coefficient-wise equality of operands (permuted / zero-padded storage), over every '
-             'commutative ring.  Metamorphic correspondence on the real kingdon for every operator incl. composite, inverse and series.',
-        technique='Rocq proof (finite-sum re-indexing over key supersets) + metamorphic differential check',
+             'commutative ring.  Congruence of Model/Inverse.v (Hitzer closed forms, Shirokov loop state, inv, div, number/x, x/number, '
+             'integer powers): any re-storage for d <= 5, every permutation (same stored blades) for d >= 6; refutation witness for '
+             'zero-padding at d >= 6 under the numeric filter (not reachable through alg.inv).  Metamorphic correspondence on the real '
+             'kingdon for every operator incl. composite, inverse and series.',
+        technique='Rocq proof (finite-sum re-indexing over key supersets; relational congruence through every generator of the inverse) + metamorphic differential check',
         ref='DESIGN.md 4 (C08)'),
     'C09': dict(
         text='Theorems about Model/Cache.v (caches + shared name-keyed namespace + by-name callees of compiled registered functions): every '
@@ -116,9 +119,12 @@ CHECKS = {
              'operation-preserving maps into a common target give equal images); (2) graded mode (Model/Graded.v, the completion of grades in '
              'do_codegen and the grade-wise zero filter): for every well-formed algebra a graded result stores exactly the complete grades '
              'occurring among the generated keys and holds on every blade the coefficient default mode computes; the filter keeps grades whole.  '
-             'cse / wrapper / func_builder-vs-lambdify are printer glue: differential check of all 16 option combinations against default '
+             '(3) translation validation: the TEXT of every sampled generated function (cse on/off, graded on/off, 20 operators) is read back '
+             'into a straight-line program and shown inside Coq to compute the model operator for all inputs in every commutative ring '
+             '(validation on polynomial indeterminates + naturality); cse inlining is sound for well-scoped assignments.  '
+             'wrapper / func_builder-vs-lambdify stay printer glue: differential check of all 16 option combinations against default '
              'options, graded results against the model evaluated in Coq.',
-        technique='Rocq proof (naturality; list/dictionary reasoning for the graded completion) + differential option-matrix correspondence',
+        technique='Rocq proof (naturality; list/dictionary reasoning for the graded completion) + translation validation of generated code (SLP on polynomial indeterminates, vm_compute) + differential option-matrix correspondence',
         ref='DESIGN.md 4 (C13)'),
     'C14': dict(
         text='Theorems (Theory/Relabel.v) for any two well-formed algebras A, D with equal signature list and start index (D = the default '
